@@ -25,7 +25,12 @@ pub struct Cfg {
     pub proto: &'static str,
     /// "concurrent": every input up front, one final drain (repo: fully_concurrent_run_...);
     /// "seeded": member 0 is elected first behind a quiescence barrier, then everything else at
-    /// once (repo: concurrent_elections_never_fork_..., phase 1 + one burst)
+    /// once;
+    /// "phased": the body of the repo's concurrent_elections_never_fork_the_committed_log —
+    /// member 0 elected and a seed entry committed in quiescence-separated steps, then
+    /// `elections` racy rounds (prime a challenger, then in one burst: a request to member 0, a
+    /// request to the challenger, heartbeat, the challenger's election interrupt, heartbeat), each
+    /// followed by `pumps` settle rounds of heartbeats to every member (`requests` is unused)
     pub shape: &'static str,
     pub elections: usize,
     pub requests: usize,
@@ -41,7 +46,13 @@ impl Cfg {
     fn from_json(v: &Value) -> Self {
         Cfg {
             proto: "raft",
-            shape: if v["shape"] == "seeded" { "seeded" } else { "concurrent" },
+            shape: if v["shape"] == "seeded" {
+                "seeded"
+            } else if v["shape"] == "phased" {
+                "phased"
+            } else {
+                "concurrent"
+            },
             elections: v["elections"].as_u64().unwrap_or(1) as usize,
             requests: v["requests"].as_u64().unwrap_or(1) as usize,
             pumps: v["pumps"].as_u64().unwrap_or(2) as usize,
@@ -129,6 +140,45 @@ pub fn run_raft(rs: &RaftSim, cfg: Cfg, ch: &mut Chooser) -> Exec {
     let rec: Rec<Histories> = Rec::new();
     let (end, overflow) = run_with_chooser(&rs.sim, ch, MAX_POINTS, async || {
         let mut sent = 0;
+        if cfg.shape == "phased" {
+            let mut h: Histories = vec![vec![]; N];
+            // quiesce (phase barrier) and fold every member's newly committed entries into its history
+            let collect = async |h: &mut Histories| {
+                hydro_lang::sim::quiesce().await;
+                for member in 0..N as u32 {
+                    let got: Vec<LogEntry<String>> = rs.committed.collect(member).await;
+                    h[member as usize].extend(got.into_iter().map(|e| (e.message, e.term_received, e.index)));
+                    let _: Vec<(String, Option<MemberId<Replica>>)> = rs.redirected.collect(member).await;
+                }
+            };
+            rs.election.send(0, ());
+            collect(&mut h).await;
+            rs.request.send(0, "seed".to_owned());
+            let mut seed_pumps = 0;
+            while h.iter().any(|x| x.is_empty()) && seed_pumps < 4 {
+                seed_pumps += 1;
+                rs.heartbeat.send(0, ());
+                collect(&mut h).await;
+            }
+            for round in 0..cfg.elections {
+                let challenger = 1 + (round % (N - 1)) as u32;
+                rs.election.send(challenger, ());
+                rs.request.send(0, format!("racy-{round}"));
+                rs.request.send(challenger, format!("challenger-{round}"));
+                rs.heartbeat.send(0, ());
+                rs.election.send(challenger, ());
+                rs.heartbeat.send(0, ());
+                collect(&mut h).await;
+                for _ in 0..cfg.pumps {
+                    for member in 0..N as u32 {
+                        rs.heartbeat.send(member, ());
+                    }
+                    collect(&mut h).await;
+                }
+            }
+            rec.push(h);
+            return;
+        }
         if cfg.shape == "seeded" {
             rs.election.send(0, ());
             hydro_lang::sim::quiesce().await;
@@ -307,12 +357,21 @@ pub fn explore_from(starts: Vec<Vec<usize>>, bound: usize, deadline: Option<Inst
     out
 }
 
-fn configs(thorough: bool) -> Vec<Cfg> {
+/// (configuration, deviation bound). The bound is per configuration because the number of
+/// decisions per run differs; every bound is completed unless a wall cap is reported.
+fn configs(thorough: bool) -> Vec<(Cfg, usize)> {
     let c = |shape, elections, requests, pumps| Cfg { proto: "raft", shape, elections, requests, pumps };
     if thorough {
-        vec![c("concurrent", 1, 1, 2), c("concurrent", 1, 2, 3), c("concurrent", 2, 2, 4), c("seeded", 1, 1, 2), c("seeded", 1, 2, 3), c("seeded", 2, 2, 4)]
+        vec![
+            (c("concurrent", 1, 1, 2), 4),
+            (c("concurrent", 2, 2, 4), 3),
+            (c("seeded", 1, 2, 3), 4),
+            (c("seeded", 2, 2, 4), 4),
+            (c("phased", 1, 2, 2), 4),
+            (c("phased", 2, 4, 3), 3),
+        ]
     } else {
-        vec![c("concurrent", 1, 1, 2), c("concurrent", 2, 2, 2), c("seeded", 1, 2, 2), c("seeded", 2, 2, 3)]
+        vec![(c("concurrent", 2, 2, 2), 2), (c("seeded", 2, 2, 3), 3), (c("phased", 1, 2, 1), 3), (c("phased", 2, 4, 1), 2)]
     }
 }
 
@@ -364,55 +423,8 @@ pub fn run(rep: &mut Report, thorough: bool, replay: Option<Value>) {
     rep.assume("hook H3 (CompiledSim::verif_run_with_driver, cargo feature hydro_verif) replaces only the source of decisions");
     rep.assume("fail-stop network model of the repo's tests; no message loss");
     rep.assume("Paxos is NOT covered: paxos_core cannot be built by the repo's simulator — leader_election takes `.max()` and p_p1b `get_max_key()` of unbounded top-level streams, for which the simulator's code generator stops with todo!(\"Reduce with optional intermediates is not yet supported in simulator\"), and p_leader_heartbeat needs wall-clock sources (sample_every / timeout / source_interval_delayed) that the simulator's timer-less tokio runtime cannot run; the repo has no full-protocol Paxos simulation test either");
-    let bound: usize = std::env::var("VF_C40_BOUND").ok().and_then(|s| s.parse().ok()).unwrap_or(if thorough { 3 } else { 2 });
-    rep.bound("deviation_bound", bound);
+    let bound_override: Option<usize> = std::env::var("VF_C40_BOUND").ok().and_then(|s| s.parse().ok());
     rep.bound("raft_members", N);
-
-    let mut sims = Sims::new();
-    let mut root = Chooser::replay(vec![]);
-    let _ = sims.run(cfg, &mut root);
-    let starts: Vec<Vec<usize>> = children(&root, 0, bound).into_iter().enumerate().filter(|(i, _)| i % nshards == shard).map(|(_, p)| p).collect();
-    let ex = explore_from(starts, bound, Some(deadline), |ch| sims.run(cfg, ch));
-    println!("VF_SIM2_RESULT {}", ex.to_json());
-}
-
-fn explore_sharded(cfg: Cfg, bound: usize, nshards: usize, wall_s: u64, root: Explored) -> Explored {
-    let exe = std::env::current_exe().unwrap_or_else(|e| machinery(&format!("current_exe: {e}")));
-    let mut kids = vec![];
-    for shard in 0..nshards {
-        let spec = json!({"cfg": cfg.json(), "bound": bound, "shard": shard, "nshards": nshards, "wall_s": wall_s}).to_string();
-        let child = std::process::Command::new(&exe)
-            .args(["--property", "C40", "--tier", "thorough"])
-            .env("VF_SIM2_WORKER", spec)
-            .stdout(std::process::Stdio::piped())
-            .stderr(std::process::Stdio::null())
-            .spawn()
-            .unwrap_or_else(|e| machinery(&format!("cannot spawn worker: {e}")));
-        kids.push(child);
-    }
-    let mut total = root;
-    for (i, k) in kids.into_iter().enumerate() {
-        let out = k.wait_with_output().unwrap_or_else(|e| machinery(&format!("worker {i}: {e}")));
-        let txt = String::from_utf8_lossy(&out.stdout);
-        let Some(line) = txt.lines().find_map(|l| l.strip_prefix("VF_SIM2_RESULT ")) else {
-            machinery(&format!("worker {i} of {} produced no result (status {:?}): {}", cfg.key(), out.status, txt.chars().take(400).collect::<String>()));
-        };
-        let v: Value = vf_explore::serde_json::from_str(line).unwrap_or_else(|e| machinery(&format!("worker {i}: bad result: {e}")));
-        total.merge(Explored::from_json(&v));
-    }
-    total
-}
-
-pub fn run(rep: &mut Report, thorough: bool, replay: Option<Value>) {
-    rep.rule = "case = (protocol, body shape, input configuration, simulator decision vector); default decision = first ready tick / release everything; ALL executions with at most `bound` non-default decisions anywhere in the run are enumerated (deviation-bounded DFS through hook H3); distinct = committed histories of all members".into();
-    rep.explanation = "exhaustive WITHIN the stated deviation bound (CHESS-style), NOT over all schedules. Raft: the repo's wiring and test bodies (3 members, fail-stop TCP; all timer interrupts / requests / heartbeat pumps up front, or member 0 elected first behind a quiescence barrier), judged by the repo's own oracle: per member contiguous committed indices from 1, pairwise no fork at any committed position, no panic (truncation guard). Paxos: the repo's paxos.rs source (2 proposers, 3 acceptors, f=1) with its wall-clock heartbeat/timeout sources replaced by interrupt inputs; oracle: no slot decided with two different values by any proposers, no panic".into();
-    rep.assume("hook H3 (CompiledSim::verif_run_with_driver, cargo feature hydro_verif) replaces only the source of decisions");
-    rep.assume("fail-stop network model of the repo's tests; no message loss");
-    rep.assume("paxos_core itself cannot run in the simulator (sample_every / timeout / source_interval_delayed need a tokio timer); the checker compiles the text of /repo/hydro_test/src/cluster/paxos.rs into its own crate and calls its private functions through a copy of the paxos_core/leader_election wiring in which only p_leader_heartbeat is replaced by interrupt-driven timers (wiring/paxos_wiring.rs.in)");
-    let bound = if thorough { 2 } else { 1 };
-    rep.bound("deviation_bound", bound);
-    rep.bound("raft_members", N);
-    rep.bound("paxos_proposers_acceptors", json!([PROPOSERS, N]));
 
     let mut sims = Sims::new();
 
@@ -448,10 +460,12 @@ pub fn run(rep: &mut Report, thorough: bool, replay: Option<Value>) {
     }
 
     let cfgs = configs(thorough);
-    let wall_per_cfg: u64 = if thorough { 140 } else { 20 };
+    rep.bound("deviation_bound_per_config", json!(cfgs.iter().map(|(c, b)| json!([c.key(), bound_override.unwrap_or(*b)])).collect::<Vec<_>>()));
+    let wall_per_cfg: u64 = if thorough { 150 } else { 30 };
     rep.bound("wall_cap_s_per_config", wall_per_cfg);
     let nshards = if thorough { vf_explore::ncpu().clamp(1, 12) } else { 1 };
-    for cfg in cfgs {
+    for (cfg, bound) in cfgs {
+        let bound = bound_override.unwrap_or(bound);
         let mut st = Stats::new();
         let t0 = Instant::now();
         // determinism guard: the default execution twice
